@@ -1,0 +1,43 @@
+//go:build verif
+
+package galaxy
+
+import (
+	"github.com/emicklei/go-restful"
+	"k8s.io/client-go/kubernetes"
+	galaxyapi "tkestack.io/galaxy/pkg/api/galaxy"
+	"tkestack.io/galaxy/pkg/galaxy/options"
+	"tkestack.io/galaxy/pkg/network/portmapping"
+	"tkestack.io/galaxy/pkg/policy"
+)
+
+// Verification hooks (build tag verif). Constructor without docker/unix socket, thin wrappers only.
+
+// VerifNewGalaxy builds a Galaxy from an already decoded JsonConf and runs the real checkNetworkConf.
+func VerifNewGalaxy(conf JsonConf, netConfDir string, cniPaths []string, client kubernetes.Interface,
+	pmh *portmapping.PortMappingHandler, pm *policy.PolicyManager) (*Galaxy, error) {
+	g := &Galaxy{
+		JsonConf:         conf,
+		ServerRunOptions: options.NewServerRunOptions(),
+		quitChan:         make(chan struct{}),
+		netConf:          map[string]map[string]interface{}{},
+		client:           client,
+		pmhandler:        pmh,
+		pm:               pm,
+	}
+	g.NetworkConfDir = netConfDir
+	g.CNIPaths = cniPaths
+	if err := g.checkNetworkConf(); err != nil {
+		return nil, err
+	}
+	return g, nil
+}
+
+// VerifRequest wraps requestFunc.
+func (g *Galaxy) VerifRequest(req *galaxyapi.PodRequest) ([]byte, error) { return g.requestFunc(req) }
+
+// VerifCNI wraps the /cni handler.
+func (g *Galaxy) VerifCNI(r *restful.Request, w *restful.Response) { g.cni(r, w) }
+
+// VerifCleanIPtables wraps cleanIPtables (the GC's port clean callback).
+func (g *Galaxy) VerifCleanIPtables(containerID string) error { return g.cleanIPtables(containerID) }
